@@ -17,8 +17,10 @@ PRE = ["proj regs", "setcfg MaxEvaluationCost 30000", "setcfg MaxInheritDepth 8"
        "line u1 do me ld:eccb:/obj/ecc;mk:ec:/obj/ec", "cycle", "line u1 do me probe", "cycle"]
 
 
-def script_of(shape, k=None, count=False, nocg=False):
+def script_of(shape, k=None, count=False, nocg=False, ehc=False):
     ops = list(PRE)
+    if ehc:       # the master's error_handler() executes catches of its own (one that catches nothing, one that catches an error)
+        ops = ["call master set_policy eh_catch #1"] + ops
     if nocg:      # the evaluation starts in a heart beat of a non-living object: no command giver to begin with
         return ops + ["line u1 do me mk:ecd:/obj/ecd", "cycle", "line u1 do me hbshape:%s" % ",".join(shape), "cycle", "tick 2", "cycle",
                       "line u1 do me probe", "cycle", "cycle"]
@@ -110,6 +112,9 @@ def run(tier, work):
     for s in allshapes:
         if len(s) <= 4:
             scen.append((str(len(scen)), script_of(s, nocg=True))); meta.append((s, None))
+    for s in allshapes:
+        if len(s) <= 3 and s[-1] != "none":
+            scen.append((str(len(scen)), script_of(s, ehc=True))); meta.append((s, None))
     print("GEN %d shapes (%d generator states) + %d fault positions over %d error-free shapes" % (len(allshapes), gs["states"], len(plans), len(clean)))
     t1 = time.time()
     exs = vlib.run_vdrv(exe, conf, scen, work, tag="run")
